@@ -28,6 +28,14 @@ def possibleUnsafeKeys : List (List UInt8) := [
   [115, 115, 104, 45, 101, 100, 50, 53, 53, 49, 57, 32],
   [101, 99, 100, 115, 97, 45, 115, 104, 97, 50, 45]]
 
+/-- `OctKey` refuses raw keys containing one of these anywhere -/
+def possibleUnsafeMarkers : List (List UInt8) := [[45, 45, 45, 45, 45, 66, 69, 71, 73, 78, 32], [45, 45, 45, 45, 32, 66, 69, 71, 73, 78, 32]]
+
+/-- `SSH_PUBLIC_PREFIX` of the asymmetric key classes (what `load_pem_key` hands to the SSH loader) -/
+def sshPublicPrefixes : List (List UInt8) := [[115, 115, 104, 45, 114, 115, 97], [101, 99, 100, 115, 97, 45, 115, 104, 97, 50, 45], [115, 115, 104, 45, 101, 100, 50, 53, 53, 49, 57]]
+def privateKeyOps : List String := ["sign", "decrypt", "unwrapKey"]
+def publicKeyOps : List String := ["verify", "encrypt", "wrapKey"]
+
 def registeredHeaderParameterNames : List String := ["alg", "crit", "cty", "jku", "jwk", "kid", "typ", "x5c", "x5t", "x5t#S256", "x5u"]
 
 def rsaPublicKeyFields : List String := ["e", "n"]
